@@ -2,12 +2,12 @@ SPECIFICATION Spec
 CONSTANTS
   Variant = "fixed"
   T = 2
-  NSs <- ThorNS
-  NBs <- ThorNB
-  NPs <- ThorNP
-  Pads <- QuickPads
-  Offs <- QuickOffs
-  MaxP = 4
+  NSs <- MidNS
+  NBs <- MidNB
+  NPs <- MidNP
+  Pads <- NoPad
+  Offs <- NoOff
+  MaxP = 6
 INVARIANT NoCrash
 INVARIANT FinalFileCanonical
 INVARIANT FinalLength
